@@ -1,6 +1,7 @@
 package main
 
 import (
+	"math/big"
 	"fmt"
 	"go/token"
 	"go/types"
@@ -296,9 +297,12 @@ func (st *State) vxCall(name string, args []Value, fn *ssa.Function) Value {
 	case "Epoch":
 		st.epoch++
 		st.globalWrites = nil
+		st.sharedWrites = nil
 		return nil
 	case "NoGlobalWrites":
 		return ts.Bool(len(st.globalWrites) == 0)
+	case "NoSharedWrites":
+		return ts.Bool(len(st.sharedWrites) == 0)
 	case "Unwind":
 		return nil
 	}
@@ -498,6 +502,28 @@ func (st *State) mathCall(name string, args []Value) (Value, bool) {
 		return st.fCeil(f64(args[0])), true
 	case "Trunc":
 		return st.fTrunc(f64(args[0])), true
+	case "Round":
+		a := f64(args[0])
+		if a.isConst() && a.sort == SF64 {
+			return ts.F64(math.Round(a.f)), true
+		}
+		if a.sort == SF64 {
+			return ts.intern(&Term{op: OFRoundAway, sort: SF64, args: []*Term{a}}), true
+		}
+		// real reading: half away from zero
+		half := ts.RealRat(big.NewRat(1, 2))
+		pos := ts.ToReal(st.realFloor(ts.rbin(ORAdd, a, half)))
+		neg := ts.RNeg(ts.ToReal(st.realFloor(ts.rbin(ORAdd, ts.RNeg(a), half))))
+		return ts.Ite(ts.rcmp(ORLt, a, ts.RealF(0)), neg, pos), true
+	case "RoundToEven":
+		a := f64(args[0])
+		if a.isConst() && a.sort == SF64 {
+			return ts.F64(math.RoundToEven(a.f)), true
+		}
+		if a.sort == SF64 {
+			return ts.intern(&Term{op: OFRoundEven, sort: SF64, args: []*Term{a}}), true
+		}
+		panic(engineGap("math.RoundToEven in the real reading"))
 	case "Abs":
 		return st.fAbs(f64(args[0])), true
 	case "Sqrt":
